@@ -204,17 +204,26 @@ def is_encode_root(i):
             or 'as minicbor::encode::write::Write>' in p or p in ('minicbor::encode', 'minicbor::encode_with', 'minicbor::to_vec', 'minicbor::to_vec_with', 'minicbor::bytes::encode'))
 
 
-def run(ctx):
-    prog = load.program('core-full')
-    ctx.rules_run.append('F-PUT: Write::write_all on the sink is called only by Encoder::put (+ the forwarding impl); put maps the sink error with Error::write only')
+def put_callers(prog, krate):
+    """functions of `krate` that call the sink's write_all on a generic writer"""
     callers = set()
     for inst in prog.insts.values():
-        if inst['krate'] != 'minicbor':
+        if inst['krate'] != krate:
             continue
         for bi, t in mir.iter_calls(inst['body']):
             f = t.get('f') or {}
             if (f.get('path') or '').endswith('encode::write::Write::write_all') and not f.get('resolved'):
                 callers.add(inst['path'])
+    return callers
+
+
+def run(ctx):
+    prog = load.program('core-full')
+    ctx.rules_run.append('F-PUT: Write::write_all on the sink is called only by Encoder::put (+ the forwarding impl); put maps the sink error with Error::write only')
+    callers = put_callers(prog, 'minicbor')
+    if not load.ALIAS:
+        from . import controls
+        controls.run(ctx, ('F-PUT',))
     for c in sorted(callers):
         if c in (l1.ENC + 'put', '<&mut W as minicbor::encode::write::Write>::write_all'):
             ctx.ok('F-PUT', c)
